@@ -199,6 +199,13 @@ def jobs(tier: str, seed: int) -> list[dict]:
                                 fn='h_showdown',
                                 params=dict(n=2, depth=2, hilo=True, deck=deck, _preset=pre, part=part),
                                 budget_s=B, must_cover=mc if k else []))
+    out.append(dict(name='allin/n2/hi/2boards', fn='h_showdown',
+                    params=dict(n=2, depth=0, shape='allin', deck=deck, boards=2, levels=2),
+                    budget_s=B, must_cover=mc))
+    out.append(dict(name='allin/n3/hi/2boards/equal-stacks', fn='h_showdown',
+                    params=dict(n=3, depth=0, shape='allin', deck=deck, boards=2, levels=2,
+                                part=['s0==s1', 's1==s2']),
+                    budget_s=B, must_cover=mc))
     # antes: trimmed (uncalled part returned) and untrimmed (dead money in the main pot), short stacks included
     for trim in (True, False):
         for k, part in enumerate(weak_orders(names3)):
